@@ -278,7 +278,7 @@ var resourceFreeIterators = map[string]string{
 // consumed in the function is stopped (or the message handed on) before the function takes the
 // next message or returns.
 func ruleMessageIterators(e *Engine, r *Reporter, pkgs []string) {
-	r.Rule("message-iterator-released", "an iterator received inside a channel message and consumed (Next/Head) in a function of the default engine is stopped, or handed on, on every path from its use to the next receive or to the function's exit", 2)
+	r.Rule("message-iterator-released", "an iterator received inside a channel message and consumed (Next/Head) in a function of the default engine is stopped, or handed on, on every path from its use to the next receive or to the function's exit", 1)
 	for _, fn := range e.Fns {
 		p := short(pkgOf(fn))
 		in := false
